@@ -205,7 +205,9 @@ func (self ValueList) Fields() (map[string]*Value, *Interrupt) {
 			if length == 0 {
 				return NewNoneOption(), nil
 			}
-			return NewValueOption((*self.Values)[length-1]), nil
+			// the option gets a cell of its own: a later `list[i] = v` must not change the value handed out here
+			last := *(*self.Values)[length-1]
+			return NewValueOption(&last), nil
 		}),
 		"to_json":        marshalHelper(self),
 		"to_json_indent": marshalIndentHelper(self),
